@@ -275,7 +275,8 @@ def worker(case: Dict[str, Any]) -> CaseResult:
             with warnings.catch_warnings(record=True) as caught:
                 warnings.simplefilter("always")
                 try:
-                    modspec = importlib.util.spec_from_file_location("generated_schema_module", out_path)
+                    import importlib.machinery
+                    modspec = importlib.util.spec_from_file_location("generated_schema_module", out_path, loader=importlib.machinery.SourceFileLoader("generated_schema_module", str(out_path)))
                     mod = importlib.util.module_from_spec(modspec)
                     modspec.loader.exec_module(mod)
                 except BaseException as e:  # noqa: BLE001
@@ -391,7 +392,7 @@ def run(tier: str, seed: int) -> int:
     r.floors = {"print_comparisons": 200, "structural_comparisons": 200, "directives_compared": 50, "regenerations_after_edit": 40, "introspected_sources": 20}
     n = 3000 if tier == "thorough" else 400
     targets = [("schema_out.py", None), ("schema_out.py", ("my_schema", "my_types")), ("out.graphql", None), ("sub_out.gql", None), ("schema_out.py", ("schema_", "TYPES")),
-               ("Schema.GraphQL", None), ("schema.GQL", None)]  # the extension decides the format whatever its letter case
+               ("Schema.GraphQL", None), ("schema.GQL", None), ("Schema_Module.PY", None), ("out.Py", ("my_schema", "my_types"))]  # the extension decides the format whatever its letter case
     cases = []
     for i in range(n):
         t, names = targets[i % len(targets)]
